@@ -35,7 +35,10 @@ func (*serverAntiAffinitiesSelector) Select(ssContext *Context) (string, error) 
 	}
 	selectedLabelValues := ssContext.LabelGroupedSelectedLabelValues()
 	candidates := linkedhashset.New[string]()
-	for affinityIdx, affinity := range policies.AntiAffinities {
+	// Every label of every rule narrows the candidates down: the first one
+	// taken into account provides the initial set
+	firstLabel := true
+	for _, affinity := range policies.AntiAffinities {
 		for _, label := range affinity.Labels {
 			labelSatisfiedCandidates := linkedhashset.New[string]()
 			labelGroupedCandidates := ssContext.LabelValueGroupedCandidates()[label]
@@ -51,7 +54,7 @@ func (*serverAntiAffinitiesSelector) Select(ssContext *Context) (string, error) 
 					labelSatisfiedCandidates.Add(iter.Value())
 				}
 			}
-			if affinityIdx > 0 {
+			if !firstLabel {
 				labelSatisfiedCandidates = labelSatisfiedCandidates.Intersection(candidates)
 			}
 			if labelSatisfiedCandidates.Size() < 1 {
@@ -64,11 +67,8 @@ func (*serverAntiAffinitiesSelector) Select(ssContext *Context) (string, error) 
 					return "", selectors.ErrUnsupportedAntiAffinityMode
 				}
 			}
-			if affinityIdx == 0 {
-				candidates.Add(labelSatisfiedCandidates.Values()...)
-				continue
-			}
 			candidates = labelSatisfiedCandidates
+			firstLabel = false
 		}
 	}
 	if candidates.Size() == 1 {
